@@ -59,7 +59,9 @@ type yieldWriter struct {
 
 func (w *yieldWriter) Write(p []byte) (int, error) {
 	w.calls++
-	at := w.yield != nil && w.calls%w.every == 0
+	// the first calls (the clear-text head of a font, the header of a metrics
+	// file) are all scheduling points, later ones every `every`-th
+	at := w.yield != nil && (w.calls <= 6 || w.calls%w.every == 0)
 	if at {
 		w.yield()
 	}
@@ -128,6 +130,18 @@ func overlapWorks() []overlapWork {
 		}},
 		{"Font.Write(pfb)", nil, 0, fontWriter(type1.FormatPFB, 12)},
 		{"Font.Write(noeexec)", nil, 0, fontWriter(type1.FormatNoEExec, 12)},
+		// two fonts whose glyph sets differ where a standard encoding has a hole:
+		// B exists but its standard code is unassigned / only A exists
+		{"Font.Write(A and B, code of B unassigned)", nil, 0, func(_ io.Reader, yield func()) string {
+			w := &yieldWriter{yield: yield, every: 12}
+			err := holeFont(true).Write(w, &type1.WriterOptions{Format: type1.FormatNoEExec})
+			return fmt.Sprintf("%x err=%v", w.buf, err)
+		}},
+		{"Font.Write(A only, standard encoding)", nil, 0, func(_ io.Reader, yield func()) string {
+			w := &yieldWriter{yield: yield, every: 12}
+			err := holeFont(false).Write(w, &type1.WriterOptions{Format: type1.FormatNoEExec})
+			return fmt.Sprintf("%x err=%v", w.buf, err)
+		}},
 		{"Font.WritePDF", nil, 0, func(_ io.Reader, yield func()) string {
 			w := &yieldWriter{yield: yield, every: 12}
 			l1, l2, err := corpus.SampleFont().WritePDF(w)
@@ -154,6 +168,32 @@ func overlapWorks() []overlapWork {
 		}},
 	}
 	return ws
+}
+
+// holeFont: standard names at their standard codes; with B the font has a
+// glyph B whose standard code 66 is left unassigned, so the encoding is not
+// the standard one.
+func holeFont(withB bool) *type1.Font {
+	f := corpus.SampleFont()
+	f.Glyphs = map[string]*type1.Glyph{}
+	enc := make([]string, 256)
+	for i := range enc {
+		enc[i] = ".notdef"
+	}
+	names := []string{".notdef", "A"}
+	if withB {
+		names = append(names, "B")
+	}
+	for k, nm := range names {
+		g := f.NewGlyph(nm, float64(500+10*k))
+		g.MoveTo(0, 0)
+		g.LineTo(float64(100+k), 0)
+		g.LineTo(50, 300)
+		g.ClosePath()
+	}
+	enc[65] = "A"
+	f.Encoding = enc
+	return f
 }
 
 func overlapFamily(preempt int, allHist bool, budget time.Duration) mc.Family {
@@ -205,7 +245,7 @@ func overlapFamily(preempt int, allHist bool, budget time.Duration) mc.Family {
 	var solo []string
 	return mc.Family{
 		Name: "overlapping-executions", Items: len(pairs), MaxDev: preempt, Budget: budget,
-		Rule: fmt.Sprintf("%d items = unordered pairs (incl. twice the same) of %d calls {2 raw programs, 2 eexec programs, type1.Read of a PFA and of a clear-text font, ReadCMap | Font.Write with default options / PFB / clear text, Font.WritePDF, Metrics.Write, afm.Read, PFB decoding, 8 name look-ups} on distinct instances in 2 goroutines x histories {none, one eexec program, two eexec programs and a font, font + CMap + failing program, every writer and the remaining readers} (pairs of the first seven after every history, the others after three of them%s); inputs arrive in chunks through readers, output leaves through writers (every 6th/12th call), look-ups are separated by explicit points: each is a scheduling point before and after the data moves; every interleaving with <= %d preemptions (first thread free); oracle: both results equal the results of the same calls running alone, and no two accesses to a package-level variable of the library, a lock-guarded field or a map in a package with locks, one of them a write, are unordered by happens-before (vector clocks over every hooked access; hooks generated from the typed AST: build/gen-c18-sites.json); the sync shim's Pool is a deterministic LIFO (a legal sync.Pool); non-trivial = every execution (both threads run)", len(pairs), len(ws), map[bool]string{true: "; thorough: all five", false: ""}[allHist], preempt),
+		Rule: fmt.Sprintf("%d items = unordered pairs (incl. twice the same) of %d calls {2 raw programs, 2 eexec programs, type1.Read of a PFA and of a clear-text font, ReadCMap | Font.Write with default options / PFB / clear text, two fonts that differ at a hole of the standard encoding, Font.WritePDF, Metrics.Write, afm.Read, PFB decoding, 8 name look-ups} on distinct instances in 2 goroutines x histories {none, one eexec program, two eexec programs and a font, font + CMap + failing program, every writer and the remaining readers} (pairs of the first seven after every history, the others after three of them%s); inputs arrive in chunks through readers, output leaves through writers (every 6th/12th call), look-ups are separated by explicit points: each is a scheduling point before and after the data moves; every interleaving with <= %d preemptions (first thread free); oracle: both results equal the results of the same calls running alone, and no two accesses to a package-level variable of the library, a lock-guarded field or a map in a package with locks, one of them a write, are unordered by happens-before (vector clocks over every hooked access; hooks generated from the typed AST: build/gen-c18-sites.json); the sync shim's Pool is a deterministic LIFO (a legal sync.Pool); non-trivial = every execution (both threads run)", len(pairs), len(ws), map[bool]string{true: "; thorough: all five", false: ""}[allHist], preempt),
 		Body: func(c *mc.Ctx, item int) mc.Verdict {
 			if solo == nil {
 				for _, w := range ws {
